@@ -72,7 +72,8 @@ def fmt(x, n=400):
 def check_stream(got, exc, exhausted, m, tag, what, vals=None):
     """Compare one pass of iteration with the model."""
     vals = m.vals if vals is None else vals
-    if m.iter_taint and exc is not None and is_unique_keys_refusal(exc):
+    if m.iter_taint and exc is not None and (is_unique_keys_refusal(exc) or type(exc).__name__ in (
+            'ItemsNotDefined', 'NotImplementedError')):
         # documented refusal: key iteration below goes through keys() of a node with duplicate keys. It may surface
         # after the keyed parts in front of it were delivered; what was delivered must still be right.
         if m.unordered:
@@ -141,6 +142,11 @@ def is_unique_keys_refusal(e):
     return isinstance(e, AssertionError) and 'Keys are not unique' in str(e)
 
 
+def is_documented_refusal(e):
+    """The loud refusals the library documents for key operations that cannot be answered."""
+    return is_unique_keys_refusal(e) or type(e).__name__ in ('ItemsNotDefined', 'NotImplementedError')
+
+
 def check_len_index(ds, m, tag, require_indexable=None):
     """C02: len, every index in [-len-2, len+2) in three integer types, IndexError outside."""
     n = m.n
@@ -180,7 +186,8 @@ def check_len_index(ds, m, tag, require_indexable=None):
             except PASS_THROUGH:
                 raise
             except BaseException as e:
-                if accept_taint and is_unique_keys_refusal(e):
+                if accept_taint and (is_unique_keys_refusal(e) or (
+                        isinstance(e, NotImplementedError) and 'keys is not implemented' in str(e))):
                     continue
                 if not inside:
                     if isinstance(e, IndexError):
@@ -243,7 +250,9 @@ def check_keys(ds, m, tag, sibling_keys=()):
             raise Violation(f'items-returned|{tag}', f'items() yielded {fmt(got)} for a dataset without items')
     elif refused and refusal_ok(exc, m, m.cap_items):
         pass
-    elif exc is not None and m.cap_items == 'opt' and m.taint and is_unique_keys_refusal(exc):
+    elif exc is not None and m.cap_items == 'opt' and (
+            (m.taint and is_unique_keys_refusal(exc))
+            or type(exc).__name__ in ('ItemsNotDefined', 'NotImplementedError')):
         want, _ = expected_stream(pairs_model)
         if not m.unordered and not same_list(got, want[:len(got)]):
             raise Violation(f'items-values|{tag}', f'got {fmt(got)} before the refusal; expected a prefix of {fmt(want)}')
